@@ -21,6 +21,12 @@ import (
 // (in the Patch, in the buffers, in the pooled codec state, in package-level
 // variables) is there for the next.
 
+type keptResult struct {
+	call string
+	raw  []byte
+	snap string
+}
+
 type apiCall struct {
 	Name  string
 	Exact bool // outcome compared byte for byte (Apply, ApplyIndent, CreateMergePatch, Equal); else by JSON value
@@ -36,6 +42,7 @@ type apiWorld struct {
 	lpsnap  string
 	pshape  map[string]*patchShape
 	lpshape *patchShape
+	keep    *[]keptResult // when set: every returned byte slice is remembered, to see whether a LATER call writes into it
 	calls   []apiCall
 	menu    []int // indices of the calls the history engine uses (the small-input calls are for the schedule engine)
 	solo    []string
@@ -46,7 +53,7 @@ var apiTexts = map[string]string{
 	"docArr":   ` [ {"a": 1}, [2, 3], "t" ] `,
 	"docBad":   `{"a":[1,}`,
 	"docNum":   `17`,
-	"patchOK":  `[{"op":"add","path":"/a/b/-","value":{"v":[null,"<"]}},{"op":"copy","from":"/a/b/1","path":"/cp"},{"op":"test","path":"/cp","value":{"c":"<x>"}},{"op":"move","from":"/z","path":"/a/n"},{"op":"remove","path":"/k"},{"op":"replace","path":"/a/b/0","value":2}]`,
+	"patchOK":  `[{"op":"add","path":"/a/b/-","value":{"v":[null,"<"]}},{"op":"add","path":"/a/b/2/v/-","value":7},{"op":"copy","from":"/a/b/1","path":"/cp"},{"op":"test","path":"/cp","value":{"c":"<x>"}},{"op":"move","from":"/z","path":"/a/n"},{"op":"remove","path":"/k"},{"op":"replace","path":"/a/b/0","value":2}]`,
 	"patchArr": `[{"op":"add","path":"/1/-","value":{"q":1}},{"op":"copy","from":"/0","path":"/-"},{"op":"test","path":"/2","value":"t"}]`,
 	"patchTst": `[{"op":"add","path":"/w","value":1},{"op":"test","path":"/a/n","value":"no"}]`,
 	"patchBad": `[{"op":"add","path":"/w","value":1},`,
@@ -62,7 +69,7 @@ var apiTexts = map[string]string{
 	"eqB":      ` { "w" : true , "x" : [ 1 , null , { "y" : "A" } ] } `,
 	// small inputs for the schedule engine (fewer scheduling points per call)
 	"docS":      `{"a":{"b":[1]},"k":"<"}`,
-	"patchS":    `[{"op":"copy","from":"/a","path":"/c"},{"op":"test","path":"/c/b/0","value":1},{"op":"add","path":"/a/b/-","value":{"v":null}}]`,
+	"patchS":    `[{"op":"copy","from":"/a","path":"/c"},{"op":"test","path":"/c/b/0","value":1},{"op":"add","path":"/a/b/-","value":{"v":null}},{"op":"replace","path":"/a/b/1/v","value":[1]}]`,
 	"patchTstS": `[{"op":"test","path":"/k","value":"no"}]`,
 	"mpS":       `{"a":{"b":null,"n":{"x":null}},"k":2}`,
 	"tgtS":      `{"a":{"b":[2]},"q":1}`,
@@ -206,6 +213,9 @@ func (w *apiWorld) outcome(i int) (out string) {
 	}()
 	c := w.calls[i]
 	b, err := c.run(w)
+	if w.keep != nil && len(b) > 0 {
+		*w.keep = append(*w.keep, keptResult{call: c.Name, raw: b, snap: string(b)})
+	}
 	if err != nil {
 		if b != nil {
 			return "err+doc: " + err.Error() + " / " + string(b)
